@@ -11,10 +11,16 @@ pub mod c03;
 pub mod c04;
 pub mod c05;
 pub mod c06;
+pub mod c07;
 pub mod c08;
+pub mod c09;
+pub mod c10;
 pub mod c11;
+pub mod c12;
+pub mod c13;
 pub mod c14;
 pub mod c15;
+pub mod c16;
 pub mod c17;
 pub mod c18;
 
@@ -26,11 +32,17 @@ pub fn by_id(id: &str) -> Option<Box<dyn Monitor>> {
         "C04" => Box::new(c04::C04),
         "C05" => Box::new(c05::C05),
         "C06" => Box::new(c06::C06),
+        "C07" => Box::new(c07::C07),
         "C08" => Box::new(c08::C08),
+        "C09" => Box::new(c09::C09),
+        "C10" => Box::new(c10::C10),
         "C11" => Box::new(c11::C11),
+        "C12" => Box::new(c12::C12),
+        "C13" => Box::new(c13::C13),
         "C14" => Box::new(c14::C14),
         "C15" => Box::new(c15::C15),
         "C18" => Box::new(c18::C18),
+        "C16" => Box::new(c16::C16),
         "C17" => Box::new(c17::C17),
         _ => return None,
     })
@@ -71,4 +83,34 @@ pub fn mix(a: u64, b: u64) -> u64 {
     let mut z = a ^ b.wrapping_mul(0x9E37_79B9_7F4A_7C15);
     z = (z ^ (z >> 30)).wrapping_mul(0xBF58_476D_1CE4_E5B9);
     z ^ (z >> 31)
+}
+
+/// Known-finding predicate shared by C07 and C16: is the deviation of a Vst / Vsct output from its
+/// exact reference explained by the rounding residue that WelfordOnline's running mean and m2 may
+/// legitimately carry (the a-priori envelope C02 holds the code to: 64 eps x steps x (N+1) x 4 M^2
+/// on m2, 64 eps x steps x M on the mean), amplified by the division by the window's std?
+/// True also when the exact window variance itself is inside that envelope (flat or nearly flat
+/// window).  Anything not explained this way keeps the predicate "any".
+pub fn welford_residue_explains(kind: &crate::dynview::Kind, xs: &[f64], t: usize, got: f64, eps: f64) -> bool {
+    use crate::oracle::window as ow;
+    use crate::xq::Xq;
+    let n = kind.n().unwrap_or(1).max(1);
+    let steps = (t + 1) as f64;
+    let big = xs[..=t].iter().fold(0f64, |m, x| m.max(x.abs()));
+    let w: Vec<Xq> = xs[(t + 1).saturating_sub(n)..=t].iter().map(|x| Xq::of(*x)).collect();
+    let nw = w.len() as f64;
+    let v = ow::sample_var(&w).f();
+    let e_var = 64.0 * eps * steps * (n as f64 + 1.0) * 4.0 * big * big / (nw - 1.0).max(1.0);
+    let e_mean = 64.0 * eps * steps * big;
+    if !(v > 4.0 * e_var) {
+        return true;
+    }
+    let std = v.sqrt();
+    let r = match kind {
+        crate::dynview::Kind::Vst(_) => ow::vst(&w).f(),
+        _ => ow::vsct(&w).f(),
+    };
+    let rel = e_var / v;
+    let extra = if matches!(kind, crate::dynview::Kind::Vsct(_)) { 2.0 * e_mean / std } else { 0.0 };
+    (got - r).abs() <= 2.0 * r.abs() * rel + extra
 }
